@@ -150,8 +150,11 @@ def gen_directed(rng, si):
     order = sorted(data)
     target = () if single else max(order, key=lambda r: len(data[r]))
     c = {'kind': 'piece', 'name': name, 'single': single, 'data': dict(data), 'order': list(order), 'L': L, 'id': 0}
+    if not single and rng.random() < 0.5:
+        # the candidate lists the same files in another order: its stream, hence its piece indexes, differ from the local order
+        c['order'] = list(reversed(order)) if rng.random() < 0.5 else rng.sample(order, len(order))
     sz = len(data[target])
-    off = sum(len(data[x]) for x in order[:order.index(target)])
+    off = sum(len(data[x]) for x in c['order'][:c['order'].index(target)])
     first, last = off // L, (off + sz - 1) // L
     n = last - first + 1
     where = rng.choice(['first', 'middle', 'middle', 'last', 'last', 'other'])
